@@ -33,6 +33,9 @@ type TableCheck struct {
 	MapKeysContain  []string `json:"map_keys_contain"`
 	MapKeysInRows   string   `json:"map_keys_in_rows"` // every key must occur in this [][]string variable
 	MapValuesNonNil bool     `json:"map_values_non_nil"`
+	// every key that is also the name of an exported string constant of this package (e.g. "time")
+	// must map to that constant's value (a name table that shadows library constants)
+	MapValuesMatchPkgConsts string `json:"map_values_match_pkg_consts"`
 }
 
 // literalOf finds the composite literal initialising a package-level variable.
@@ -227,7 +230,7 @@ func (e *Engine) checkTable(tc TableCheck) {
 		}
 		return
 	}
-	if tc.MapKeyMaxLen > 0 || len(tc.MapKeysContain) > 0 || tc.MapKeysInRows != "" || tc.MapValuesNonNil {
+	if tc.MapKeyMaxLen > 0 || len(tc.MapKeysContain) > 0 || tc.MapKeysInRows != "" || tc.MapValuesNonNil || tc.MapValuesMatchPkgConsts != "" {
 		m, p, ok := e.mapOf(tc.Pkg, tc.Var)
 		if !ok {
 			e.unsup[fx.name] = append(e.unsup[fx.name], "map literal not found or keys not constant")
@@ -257,6 +260,20 @@ func (e *Engine) checkTable(tc TableCheck) {
 			}
 			if rowSet != nil {
 				e.oblige(fx, st, "table", fmt.Sprintf("key-in-%s[%q]", tc.MapKeysInRows, k), tf(rowSet[k]), fmt.Sprintf("key %q of %s must occur in %s", k, tc.Var, tc.MapKeysInRows), 0)
+			}
+			if tc.MapValuesMatchPkgConsts != "" && p != nil {
+				// the library constant of the same name, if there is one
+				for _, imp := range p.Types.Imports() {
+					if imp.Path() != tc.MapValuesMatchPkgConsts {
+						continue
+					}
+					if obj, ok := imp.Scope().Lookup(k).(*types.Const); ok && obj.Exported() && obj.Val().Kind() == constant.String {
+						want := constant.StringVal(obj.Val())
+						got, isConst := constString(p, m[k])
+						e.oblige(fx, st, "table", fmt.Sprintf("matches-%s.%s", imp.Name(), k), tf(isConst && got == want),
+							fmt.Sprintf("%s[%q] must be %s.%s (%q), found %q", tc.Var, k, imp.Name(), k, want, got), 0)
+					}
+				}
 			}
 			if tc.MapValuesNonNil {
 				nonNil := true
@@ -746,4 +763,70 @@ func (e *Engine) mutableGlobals() map[*ssa.Global]bool {
 		}
 	}
 	return e.mutGlobals
+}
+
+// checkMapOrderIndependence: Go randomises map iteration order. A function that appends text to
+// a builder (strings.Builder, a JSON object builder) from inside a loop that ranges over a map
+// produces text that depends on that order: the same data renders differently from one call to
+// the next. Ground obligation of class "order" per map-range loop.
+func (e *Engine) checkMapOrderIndependence(fn *ssa.Function) {
+	if len(fn.Blocks) == 0 {
+		return
+	}
+	name := funcFullName(fn)
+	fx := &FuncExec{eng: e, fn: fn, name: name, modKeys: map[string]bool{}, havocGens: map[string]bool{}}
+	fx.findLoops()
+	k := 0
+	for _, b := range fn.Blocks {
+		for _, ins := range b.Instrs {
+			rng, ok := ins.(*ssa.Range)
+			if !ok {
+				continue
+			}
+			if _, isMap := rng.X.Type().Underlying().(*types.Map); !isMap || rng.Referrers() == nil {
+				continue
+			}
+			// the loop whose header holds the Next of this iterator
+			var hdr *ssa.BasicBlock
+			for _, r := range *rng.Referrers() {
+				if nx, ok := r.(*ssa.Next); ok {
+					hdr = nx.Block()
+				}
+			}
+			body := fx.loopBody[hdr]
+			if hdr == nil || body == nil {
+				continue
+			}
+			var writers []string
+			for bb := range body {
+				for _, in := range bb.Instrs {
+					c, ok := in.(ssa.CallInstruction)
+					if !ok {
+						continue
+					}
+					f, ok := c.Common().Value.(*ssa.Function)
+					if !ok || f.Signature.Recv() == nil {
+						continue
+					}
+					rt := fullTypeName(f.Signature.Recv().Type())
+					if strings.HasPrefix(f.Name(), "Write") && (strings.HasSuffix(rt, "strings.Builder") || strings.HasSuffix(rt, "JsonObjectBuilder") || strings.HasSuffix(rt, "bytes.Buffer")) {
+						txt, _ := e.srcLine(in.Pos())
+						writers = append(writers, strings.TrimSpace(txt))
+					}
+				}
+			}
+			sort.Strings(writers)
+			k++
+			st := &State{fx: fx, declSet: map[string]bool{}, pcSet: map[string]bool{}, ghostV: map[string]Value{}}
+			st.heap = &HeapView{m: map[string]string{}, base: "0"}
+			st.old = st.heap
+			goal := "true"
+			if len(writers) > 0 {
+				goal = "false"
+			}
+			txt, _ := e.srcLine(rng.Pos())
+			e.oblige(fx, st, "order", fmt.Sprintf("map-range-order-independent:%s#%d", strings.TrimSpace(txt), k), goal,
+				fmt.Sprintf("text is written inside a loop over a map (%v): the result depends on Go's random map iteration order", writers), rng.Pos())
+		}
+	}
 }
